@@ -9,6 +9,7 @@ import (
 	"fmt"
 	"net"
 	"os"
+	"runtime"
 	"sort"
 	"strconv"
 	"strings"
@@ -1248,6 +1249,291 @@ func c04RunInflight(t *testing.T, run *vk.Run, c c04Inflight, idx int) {
 	if idx < 2 {
 		run.Sample(detail)
 	}
+}
+
+// ---------------------------------------------------------------------------------
+// Concurrent validation: an ENTITLED client's secret-key TunnelOpen is held (gated
+// storage double) inside its credential validation, at its read of the mapping record.
+// While it is held, other connections present the SAME mapping id + right secret: an
+// authenticated unrelated client, an unauthenticated connection, one that only did
+// phase 1. Each request is judged by its own identity cell of the matrix, whatever was
+// in flight next to it.
+
+// c04ConcOtherOpen is the body of every concurrent requester goroutine (a named function
+// so that its goroutine can be recognised in a stack dump).
+func c04ConcOtherOpen(w *c04World, e *c04End, req *packet.TunnelOpenRequest, started *atomic.Int32, done chan struct{}) {
+	defer close(done)
+	started.Add(1)
+	w.open(e, req)
+}
+
+// c04ParkedCoalesced counts concurrent-requester goroutines that are parked waiting for
+// the result of somebody else's in-flight call (singleflight-style coalescing, at any layer).
+func c04ParkedCoalesced() int {
+	buf := make([]byte, 4<<20)
+	n := runtime.Stack(buf, true)
+	cnt := 0
+	for _, g := range strings.Split(string(buf[:n]), "\n\n") {
+		if strings.Contains(g, "c04ConcOtherOpen") && strings.Contains(g, "singleflight") && strings.Contains(g, "WaitGroup") {
+			cnt++
+		}
+	}
+	return cnt
+}
+
+type c04Conc struct {
+	Entitled string `json:"entitled"` // listen (opens a new tunnel) | target (joins the victim's waiting bridge)
+}
+
+func c04RunConcurrent(t *testing.T, run *vk.Run, c c04Conc, idx int) {
+	cell := c04Cell{Kind: "keyed", Tunnel: "none", MapState: "active", Identity: c.Entitled, Cred: "id+secret"}
+	if c.Entitled == "target" {
+		cell.Tunnel = "waiting"
+	}
+	w := &c04World{t: t, run: run, cell: cell}
+	defer w.close()
+	bg, cancel := context.WithCancel(context.Background())
+	w.cleanup = append(w.cleanup, cancel)
+	gate := vk.NewGated("node-a", memory.New(bg))
+	gate.SetHook(nil)
+	w.n = newMiniNode(t, miniOpts{NodeID: "node-a", Store: gate, NoCommands: true})
+	w.nb = w.n
+	setupFail := func(why string) {
+		run.Count("cells_setup_failed", 1)
+		run.Observe(fmt.Sprintf("setup_failed|concurrent-%d", idx), why)
+	}
+	if err := w.populate(idx); err != nil {
+		setupFail(err.Error())
+		return
+	}
+	if cell.Tunnel == "waiting" {
+		if err := w.victimListenOpen(); err != nil || !c04Ok(w.vL) {
+			setupFail("victim listen open")
+			return
+		}
+	}
+	var id int64
+	var sec string
+	if c.Entitled == "listen" {
+		id, sec = w.L.ClientID, w.L.Secret
+	} else {
+		id, sec = w.T.ClientID, w.T.Secret
+	}
+	ent, err := w.newEnd(w.n, "entitled", id, sec)
+	if err != nil {
+		setupFail(err.Error())
+		return
+	}
+	type other struct {
+		identity          string
+		e                 *c04End
+		done              chan struct{}
+		inFlightAtRelease bool
+	}
+	var others []*other
+	for _, ident := range []string{"other", "unauth", "unauth-p1", "other"} {
+		var oid int64
+		var osec string
+		if ident == "other" {
+			oid, osec = w.U.ClientID, w.U.Secret
+		}
+		e, err := w.newEnd(w.n, "requester-"+ident, oid, osec)
+		if err != nil {
+			setupFail(err.Error())
+			return
+		}
+		if ident == "unauth-p1" {
+			if r, _ := e.c.Phase1(w.L.ClientID, "tunnel"); r == nil || r.Challenge == "" {
+				setupFail("phase1")
+				return
+			}
+		}
+		others = append(others, &other{identity: ident, e: e, done: make(chan struct{})})
+	}
+	req := func() *packet.TunnelOpenRequest {
+		return &packet.TunnelOpenRequest{MappingID: w.mapID, TunnelID: w.tunnel, SecretKey: w.secret}
+	}
+
+	var armed atomic.Bool
+	var reads atomic.Int32
+	reached, hold := make(chan struct{}), make(chan struct{})
+	var releaseOnce sync.Once
+	release := func() { releaseOnce.Do(func() { close(hold) }) }
+	defer release()
+	suffix := ":" + w.mapID
+	gate.SetHook(func(tier, op, key string) error {
+		if armed.Load() && op == "Get" && strings.HasSuffix(key, suffix) {
+			if reads.Add(1) == 1 {
+				close(reached)
+				<-hold
+			}
+		}
+		return nil
+	})
+	armed.Store(true)
+	entDone := make(chan struct{})
+	go func() {
+		defer close(entDone)
+		w.open(ent, req())
+	}()
+	select {
+	case <-reached:
+		run.Count("entitled_open_held_in_validation", 1)
+	case <-entDone:
+		run.Count("gate_not_reached", 1)
+	case <-time.After(10 * time.Second):
+		run.Count("watchdog_concurrent", 1)
+		return
+	}
+	// the others arrive while the entitled validation is in flight
+	var started atomic.Int32
+	for _, o := range others {
+		go c04ConcOtherOpen(w, o.e, req(), &started, o.done)
+	}
+	// release only when every other request has either finished, is parked behind the
+	// in-flight call, or has gone to the store itself (bounded number of polls)
+	arrived := false
+	for poll := 0; poll < 5000 && !arrived; poll++ {
+		fin := 0
+		for _, o := range others {
+			select {
+			case <-o.done:
+				fin++
+			default:
+			}
+		}
+		if int(started.Load()) == len(others) && fin+c04ParkedCoalesced()+int(reads.Load())-1 >= len(others) {
+			arrived = true
+			break
+		}
+		time.Sleep(200 * time.Microsecond)
+	}
+	if !arrived {
+		run.Count("others_not_all_arrived_before_release", 1)
+	}
+	for _, o := range others {
+		select {
+		case <-o.done:
+		default:
+			o.inFlightAtRelease = true
+		}
+	}
+	w.logf("releasing the entitled open; others in flight: %v", func() (l []string) {
+		for _, o := range others {
+			if o.inFlightAtRelease {
+				l = append(l, o.identity)
+			}
+		}
+		return
+	}())
+	release()
+	for _, ch := range append([]chan struct{}{entDone}, func() (l []chan struct{}) {
+		for _, o := range others {
+			l = append(l, o.done)
+		}
+		return
+	}()...) {
+		select {
+		case <-ch:
+		case <-time.After(10 * time.Second):
+			run.Count("watchdog_concurrent", 1)
+			return
+		}
+	}
+	armed.Store(false)
+	gate.SetHook(nil)
+	w.logf("entitled open: ack=%s err=%q", c04AckStr(ent.ack), ent.err)
+	// data probe: the entitled end (and the victim source) write markers
+	w.rq = ent
+	for _, v := range []*c04End{ent, w.vL} {
+		if v != nil && c04Ok(v) && w.write(v) {
+			b := c04BridgeOf(w.n, v)
+			w.locateAmong(v.mark, b != nil && b.GetTargetConnectionID() != "" && b.GetSourceConnectionID() != "", others2ends(others, func(o *other) *c04End { return o.e }))
+		}
+	}
+	run.Eval(1)
+	run.Count("cells_executed", 1)
+	if c04Ok(ent) {
+		run.Count("entitled_admitted|tunnel=concurrent", 1)
+	}
+	for i, o := range others {
+		o.e.drain()
+		oc := c04Cell{Kind: "keyed", Tunnel: "concurrent", MapState: "active", Identity: o.identity, Cred: "id+secret"}
+		obs := c04Obs{Ack: c04AckStr(o.e.ack), SendErr: o.e.err}
+		if b := c04BridgeOf(w.n, o.e); b != nil {
+			obs.Attached = c04Side(b, o.e) + "@" + b.GetTunnelID()
+		}
+		for _, v := range []*c04End{ent, w.vL} {
+			if v != nil && o.e.has(v.mark) {
+				obs.Leaked = append(obs.Leaked, v.role)
+			}
+		}
+		obs.Trace = w.trace
+		if o.inFlightAtRelease {
+			run.Count("request_overlapped_held_validation|id="+o.identity, 1)
+		}
+		run.Distinct(fmt.Sprintf("%s|%s|%d|overlap=%v", c.Entitled, o.identity, i, o.inFlightAtRelease))
+		c04Judge(run, oc, obs)
+	}
+	if idx%7 == 0 {
+		run.Sample(map[string]any{"case": c, "trace": w.trace})
+	}
+}
+
+func others2ends[T any](in []T, f func(T) *c04End) []*c04End {
+	var out []*c04End
+	for _, x := range in {
+		out = append(out, f(x))
+	}
+	return out
+}
+
+// locateAmong is locate() over an explicit set of extra ends.
+func (w *c04World) locateAmong(marker string, expectConsumer bool, extra []*c04End) string {
+	polls := 15000 // x 200us: a count bound; expiry only counts a watchdog
+	if !expectConsumer {
+		polls = 15
+	}
+	ends := append([]*c04End{w.rq, w.vL, w.vT}, extra...)
+	for p := 0; p < polls; p++ {
+		for _, e := range ends {
+			if e == nil {
+				continue
+			}
+			e.drain()
+			if e.has(marker) {
+				w.logf("marker %s located at %s", marker, e.role)
+				return e.role
+			}
+		}
+		time.Sleep(200 * time.Microsecond)
+	}
+	if expectConsumer {
+		w.run.Count("watchdog_marker_unlocated", 1)
+	}
+	return ""
+}
+
+func TestVerifC04ConcurrentValidation(t *testing.T) {
+	run := vk.Start(t, "C04", "concurrent")
+	defer run.Finish()
+	run.Rule("entitled opener{listen opening a new tunnel, target joining a waiting bridge} with mapping id + right secret is held by a gated storage double at its validation read of the mapping record; meanwhile 4 other connections {unrelated authenticated client x2, unauthenticated, phase-1 only} send TunnelOpen with the same mapping id + right secret + tunnel id; the hold is released once every other request has finished, is parked behind an in-flight call, or reached the store; repeated; distinct = (opener, other identity, overlapped the held validation?)")
+	reps := run.Pick(6, 60)
+	n := 0
+	for r := 0; r < reps; r++ {
+		for _, e := range []string{"listen", "target"} {
+			run.Case(fmt.Sprintf("concurrent|%s|%d", e, r), nil)
+			c04RunConcurrent(t, run, c04Conc{Entitled: e}, 300000+n)
+			n++
+			if run.Violations() > 20 {
+				break
+			}
+		}
+	}
+	run.Floor("cells_executed", int64(n-1))
+	run.Floor("entitled_open_held_in_validation", int64(n-1))
+	run.Floor("request_overlapped_held_validation|id=other", int64(2*(n-1)))
+	run.Floor("entitled_admitted|tunnel=concurrent", int64(n-1))
 }
 
 func TestVerifC04RevokeInFlight(t *testing.T) {
